@@ -7,12 +7,12 @@ func init() {
 		// UInt64ToString, MapClear, Assume/Assert/Linearize/NewProph/RandomUint64/TimeNow/Sleep:
 		// three rapid properties per shard, `checks` cases each.
 		{name: "pure", pkg: "./c16", run: "^(TestString|TestMapClear|TestCalls)$",
-			shards: [2]int{8, 16}, checks: [2]int{20000, 1000000}, timeout: [2]time.Duration{9 * min, 25 * min}},
+			shards: [2]int{8, 16}, checks: [2]int{20000, 1000000}, timeout: [2]time.Duration{9 * min, 50 * min}},
 		// WaitTimeout: real-time cases, few processes so that a loaded machine does not starve them.
 		{name: "timing", pkg: "./c16", run: "^TestWaitTimeout(Plain)?$",
-			shards: [2]int{2, 4}, checks: [2]int{60, 1500}, timeout: [2]time.Duration{24 * min, 25 * min}},
+			shards: [2]int{2, 4}, checks: [2]int{60, 1500}, timeout: [2]time.Duration{24 * min, 50 * min}},
 		// signal aimed at the expiry of the timeout, in volume (a window of microseconds)
 		{name: "coincide", pkg: "./c16", run: "^TestWaitCoincide$",
-			shards: [2]int{2, 4}, checks: [2]int{8, 400}, timeout: [2]time.Duration{24 * min, 25 * min}},
+			shards: [2]int{2, 4}, checks: [2]int{8, 400}, timeout: [2]time.Duration{24 * min, 50 * min}},
 	}})
 }
